@@ -348,31 +348,6 @@ Section RstmtInd.
     end.
 End RstmtInd.
 
-(* no import statement anywhere inside *)
-Fixpoint rnoimp (x : rstmt) : Prop :=
-  match x with
-  | RImport _ _ => False
-  | RDecl _ _ body => (fix go (l : list rstmt) : Prop := match l with [] => True | y :: t => rnoimp y /\ go t end) body
-  | RBlock _ body => (fix go (l : list rstmt) : Prop := match l with [] => True | y :: t => rnoimp y /\ go t end) body
-  | _ => True
-  end.
-Fixpoint rnoimp_l (l : list rstmt) : Prop := match l with [] => True | y :: t => rnoimp y /\ rnoimp_l t end.
-Lemma rnoimp_decl line d body : rnoimp (RDecl line d body) <-> rnoimp_l body.
-Proof. cbn [rnoimp]. induction body as [|y t IH]; cbn [rnoimp_l]; tauto. Qed.
-Lemma rnoimp_block c body : rnoimp (RBlock c body) <-> rnoimp_l body.
-Proof. cbn [rnoimp]. induction body as [|y t IH]; cbn [rnoimp_l]; tauto. Qed.
-
-(* import statements only as top-level statements *)
-Definition top_only (s : stmt) : Prop := match s with SImport _ => True | _ => imports_of_stmt s = [] end.
-Definition wf_src (src : list stmt) : Prop := Forall top_only src.
-Definition rtop_only (s : rstmt) : Prop := match s with RImport _ _ => True | _ => rnoimp s end.
-Definition rwf (rs : list rstmt) : Prop := Forall rtop_only rs.
-
-Lemma imports_of_stmt_decl line d body : imports_of_stmt (SDecl line d body) = imports_of body.
-Proof. cbn [imports_of_stmt]. induction body as [|y t IH]; cbn [imports_of]; [reflexivity|]. rewrite IH. reflexivity. Qed.
-Lemma imports_of_stmt_block c body : imports_of_stmt (SBlock c body) = imports_of body.
-Proof. cbn [imports_of_stmt]. induction body as [|y t IH]; cbn [imports_of]; [reflexivity|]. rewrite IH. reflexivity. Qed.
-
 Section ResolveShape.
   Variable fs : fsys.
   Variable inst : N.
@@ -389,48 +364,6 @@ Section ResolveShape.
   Proof.
     revert s. induction l as [|y t IH]; intros s; [reflexivity|].
     simpl. destruct (resolve_stmt fs inst p res ld y s) as [s1 r1]. rewrite IH. reflexivity.
-  Qed.
-
-  Lemma resolve_noimp x : forall s, imports_of_stmt x = [] -> rnoimp (snd (resolve_stmt fs inst p res ld x s)).
-  Proof.
-    induction x as [i|line d body IH|line n k|t|c body IH] using stmt_ind'; intros s Hx.
-    - discriminate.
-    - rewrite imports_of_stmt_decl in Hx. cbn [resolve_stmt].
-      assert (Hb : forall s0, rnoimp_l (snd (resolve_stmts fs inst p res ld body s0))).
-      { clear - IH Hx. induction IH as [|y t Hy _ IHt]; intros s0; cbn [resolve_stmts]; [exact I|].
-        cbn [imports_of] in Hx. apply app_eq_nil in Hx. destruct Hx as [Hy0 Ht0].
-        specialize (Hy s0 Hy0). destruct (resolve_stmt fs inst p res ld y s0) as [s1 r1]. cbn [snd] in Hy.
-        specialize (IHt Ht0 s1). destruct (resolve_stmts fs inst p res ld t s1) as [s2 rs2]. cbn [snd rnoimp_l] in *. auto. }
-      destruct (d_kind d); cbn [snd]; try exact I.
-      rewrite resolve_stmts_eq.
-      match goal with |- context [resolve_stmts fs inst p res ld body ?s0] => specialize (Hb s0); destruct (resolve_stmts fs inst p res ld body s0) as [s2 rb] end.
-      cbn [snd] in *. apply rnoimp_decl. exact Hb.
-    - cbn [resolve_stmt]. destruct k; cbn;
-        repeat match goal with |- context [match ?e with _ => _ end] => destruct e end; exact I.
-    - exact I.
-    - rewrite imports_of_stmt_block in Hx. cbn [resolve_stmt].
-      assert (Hb : forall s0, rnoimp_l (snd (resolve_stmts fs inst p res ld body s0))).
-      { clear - IH Hx. induction IH as [|y t Hy _ IHt]; intros s0; cbn [resolve_stmts]; [exact I|].
-        cbn [imports_of] in Hx. apply app_eq_nil in Hx. destruct Hx as [Hy0 Ht0].
-        specialize (Hy s0 Hy0). destruct (resolve_stmt fs inst p res ld y s0) as [s1 r1]. cbn [snd] in Hy.
-        specialize (IHt Ht0 s1). destruct (resolve_stmts fs inst p res ld t s1) as [s2 rs2]. cbn [snd rnoimp_l] in *. auto. }
-      rewrite resolve_stmts_eq.
-      match goal with |- context [resolve_stmts fs inst p res ld body ?s0] => specialize (Hb s0); destruct (resolve_stmts fs inst p res ld body s0) as [s2 rb] end.
-      cbn [snd] in *. apply rnoimp_block. exact Hb.
-  Qed.
-
-  Lemma resolve_rwf src : forall s, wf_src src -> rwf (snd (resolve_stmts fs inst p res ld src s)).
-  Proof.
-    induction src as [|y t IH]; intros s Hwf; cbn [resolve_stmts]; [constructor|].
-    inversion Hwf as [|? ? Hy Ht]; subst.
-    pose proof (resolve_noimp y s) as Hn.
-    destruct (resolve_stmt fs inst p res ld y s) as [s1 r1] eqn:E1.
-    specialize (IH s1 Ht). destruct (resolve_stmts fs inst p res ld t s1) as [s2 rs2]. cbn [snd] in *.
-    constructor; [|exact IH].
-    destruct y; try (cbn [top_only] in Hy; specialize (Hn Hy); destruct r1; cbn [rtop_only]; auto; exact Hn).
-    cbn [resolve_stmt] in E1. unfold resolve_import in E1.
-    repeat match type of E1 with context [let '(_, _) := ?e in _] => destruct e end.
-    injection E1 as _ <-. exact I.
   Qed.
 End ResolveShape.
 
@@ -468,6 +401,90 @@ Proof.
   apply IH; [|exact H]. intros q' H'. apply (Ha q'). right; exact H'.
 Qed.
 
+
+(* ---------------------------------------------------------------------------------------------
+   the loop of initImportedModules without reference to the graph *)
+Section EmitFacts.
+  Variable G : path -> list path.
+  Variable fuel : nat.
+
+  Lemma emit_one_shift imp c0 c x :
+    emit_one (imp, c0 ++ c) x = (fst (emit_one (imp, c) x), c0 ++ snd (emit_one (imp, c) x)).
+  Proof. unfold emit_one. destruct (memN x imp); cbn [fst snd]; [reflexivity|]. rewrite app_assoc. reflexivity. Qed.
+
+  Lemma fold_emit_one_shift po : forall imp c0 c,
+    fold_left emit_one po (imp, c0 ++ c) =
+    (fst (fold_left emit_one po (imp, c)), c0 ++ snd (fold_left emit_one po (imp, c))).
+  Proof.
+    induction po as [|x po IH]; intros imp c0 c; cbn [fold_left]; [reflexivity|].
+    rewrite emit_one_shift. destruct (emit_one (imp, c) x) as [i1 c1]. cbn [fst snd]. apply IH.
+  Qed.
+
+  Lemma emit_import_shift ms : forall imp c0 c,
+    fold_left (fun st m => fold_left emit_one (post_order G fuel m) st) ms (imp, c0 ++ c) =
+    (fst (fold_left (fun st m => fold_left emit_one (post_order G fuel m) st) ms (imp, c)),
+     c0 ++ snd (fold_left (fun st m => fold_left emit_one (post_order G fuel m) st) ms (imp, c))).
+  Proof.
+    induction ms as [|m ms IH]; intros imp c0 c; cbn [fold_left]; [reflexivity|].
+    rewrite fold_emit_one_shift.
+    destruct (fold_left emit_one (post_order G fuel m) (imp, c)) as [imp1 c1]. cbn [fst snd]. apply IH.
+  Qed.
+
+  Lemma fold_emit_one_contains po : forall st,
+    (forall y, In y (fst st) -> In y (fst (fold_left emit_one po st))) /\
+    (forall y, In y po -> In y (fst (fold_left emit_one po st))).
+  Proof.
+    induction po as [|x po IH]; intros [imp c]; cbn [fold_left]; [split; [auto|intros y []]|].
+    destruct (IH (emit_one (imp, c) x)) as [H1 H2].
+    assert (Hx : In x (fst (emit_one (imp, c) x)) /\ forall y, In y imp -> In y (fst (emit_one (imp, c) x))).
+    { unfold emit_one. destruct (memN x imp) eqn:E; cbn [fst]; [apply memN_In in E; auto|split; [left; reflexivity|intros y Hy; right; exact Hy]]. }
+    destruct Hx as [Hx Hk]. split; [intros y Hy; apply H1, Hk, Hy|].
+    intros y [<-|Hy]; [apply H1, Hx|apply H2, Hy].
+  Qed.
+
+  Lemma fold_emit_one_noop po : forall imp c, (forall y, In y po -> In y imp) -> fold_left emit_one po (imp, c) = (imp, c).
+  Proof.
+    induction po as [|x po IH]; intros imp c H; cbn [fold_left]; [reflexivity|].
+    unfold emit_one at 2. assert (E : memN x imp = true) by (apply memN_In, H; left; reflexivity).
+    rewrite E. apply IH. intros y Hy. apply H. right; exact Hy.
+  Qed.
+
+  Notation F := (fun st m => fold_left emit_one (post_order G fuel m) st).
+
+  Lemma emit_import_contains ms : forall st,
+    (forall y, In y (fst st) -> In y (fst (fold_left F ms st))) /\
+    (forall m y, In m ms -> In y (post_order G fuel m) -> In y (fst (fold_left F ms st))).
+  Proof.
+    induction ms as [|m ms IH]; intros st; cbn [fold_left]; [split; [auto|intros m y []]|].
+    destruct (IH (fold_left emit_one (post_order G fuel m) st)) as [H1 H2].
+    destruct (fold_emit_one_contains (post_order G fuel m) st) as [K1 K2].
+    split; [intros y Hy; apply H1, K1, Hy|].
+    intros m' y [<-|Hm] Hy; [apply H1, K2, Hy|eapply H2; eauto].
+  Qed.
+
+  Lemma emit_import_noop ms : forall imp c,
+    (forall m y, In m ms -> In y (post_order G fuel m) -> In y imp) -> fold_left F ms (imp, c) = (imp, c).
+  Proof.
+    induction ms as [|m ms IH]; intros imp c H; cbn [fold_left]; [reflexivity|].
+    rewrite fold_emit_one_noop; [|intros y Hy; eapply H; [left; reflexivity|exact Hy]].
+    apply IH. intros m' y Hm Hy. eapply H; [right; exact Hm|exact Hy].
+  Qed.
+
+  (* several import statements one after the other = one import statement with all their modules *)
+  Lemma hoist_eq L : forall imp c0,
+    fold_left (hoist_step G fuel) L (imp, c0) =
+    (fst (emit_import G fuel imp (concat L)), c0 ++ snd (emit_import G fuel imp (concat L))).
+  Proof.
+    unfold emit_import.
+    induction L as [|ms L IH]; intros imp c0; cbn [fold_left concat]; [cbn; rewrite app_nil_r; reflexivity|].
+    unfold hoist_step at 2. unfold emit_import.
+    destruct (fold_left F ms (imp, [])) as [imp1 c1] eqn:E1.
+    rewrite IH, fold_left_app, E1.
+    pose proof (emit_import_shift (concat L) imp1 c1 []) as Hs. rewrite app_nil_r in Hs. rewrite Hs.
+    cbn [fst snd]. rewrite app_assoc. reflexivity.
+  Qed.
+End EmitFacts.
+
 Section CompileFacts.
   Variable G : path -> list path.
   Variable fuel : nat.
@@ -496,25 +513,41 @@ Section CompileFacts.
   Lemma noinit_single x : (forall q, ~ produces x (EInit q)) -> noinit_l [x].
   Proof. intros H q [H1|[]]. exact (H q H1). Qed.
 
-  Lemma compile_noimp x : rnoimp x -> forall hc infn c c' code,
-    cfn_ok c -> cstmt hc infn x c = (c', code) -> c_imp c' = c_imp c /\ noinit_l code /\ cfn_ok c'.
+  (* the modules of every import statement inside x are already imported *)
+  Definition cov (imp : list path) (x : rstmt) : Prop :=
+    forall ms m y, In ms (nested_imports x) -> In m ms -> In y (post_order G fuel m) -> In y imp.
+  Definition cov_l (imp : list path) (l : list rstmt) : Prop := forall x, In x l -> cov imp x.
+
+  Lemma nested_imports_decl line d body : nested_imports (RDecl line d body) = flat_map nested_imports body.
+  Proof. cbn [nested_imports]. induction body as [|y t IH]; cbn [flat_map]; [reflexivity|]. rewrite IH. reflexivity. Qed.
+  Lemma nested_imports_block ct body : nested_imports (RBlock ct body) = flat_map nested_imports body.
+  Proof. cbn [nested_imports]. induction body as [|y t IH]; cbn [flat_map]; [reflexivity|]. rewrite IH. reflexivity. Qed.
+
+  Lemma cov_body imp body : (forall ms m y, In ms (flat_map nested_imports body) -> In m ms -> In y (post_order G fuel m) -> In y imp) -> cov_l imp body.
+  Proof. intros H x Hx ms m y Hms. apply H. apply in_flat_map. exists x. auto. Qed.
+
+  Lemma compile_cov x : forall hc infn c c' code,
+    cov (c_imp c) x -> cfn_ok c -> cstmt hc infn x c = (c', code) -> c_imp c' = c_imp c /\ noinit_l code /\ cfn_ok c'.
   Proof.
-    induction x as [line ms|line d body IH|line k e|t|ct body IH] using rstmt_ind'; intros Hx hc infn c c' code Hc.
-    - destruct Hx.
-    - apply rnoimp_decl in Hx. cbn [compile_stmt].
-      assert (Hb : forall hc' infn' c0 c1 code1, cfn_ok c0 -> cstmts hc' infn' body c0 = (c1, code1) ->
+    induction x as [line ms|line d body IH|line k e|t|ct body IH] using rstmt_ind'; intros hc infn c c' code Hx Hc.
+    - cbn [compile_stmt]. unfold emit_import.
+      rewrite emit_import_noop; [|intros m y Hm Hy; eapply Hx; [left; reflexivity|exact Hm|exact Hy]].
+      intros E; injection E as <- <-. destruct c; cbn. split; [reflexivity|split; [|exact Hc]].
+      destruct hc; intros q [].
+    - unfold cov in Hx. rewrite nested_imports_decl in Hx. apply cov_body in Hx. cbn [compile_stmt].
+      assert (Hb : forall hc' infn' c0 c1 code1, c_imp c0 = c_imp c -> cfn_ok c0 -> cstmts hc' infn' body c0 = (c1, code1) ->
                      c_imp c1 = c_imp c0 /\ noinit_l code1 /\ cfn_ok c1).
-      { clear - IH Hx Hext. induction IH as [|y t Hy _ IHt]; intros hc' infn' c0 c1 code1 Hc0; cbn [compile_stmts].
+      { clear - IH Hx Hext. induction IH as [|y t Hy _ IHt]; intros hc' infn' c0 c1 code1 Ei Hc0; cbn [compile_stmts].
         - intros E; injection E as <- <-. split; [reflexivity|split; [intros q []|exact Hc0]].
-        - cbn [rnoimp_l] in Hx. destruct Hx as [Hy0 Ht0].
-          destruct (cstmt hc' infn' y c0) as [c2 a2] eqn:E2.
+        - destruct (cstmt hc' infn' y c0) as [c2 a2] eqn:E2.
           destruct (cstmts hc' infn' t c2) as [c3 a3] eqn:E3. intros E; injection E as <- <-.
-          destruct (Hy Hy0 _ _ _ _ _ Hc0 E2) as [H1 [H2 H3]].
-          destruct (IHt Ht0 _ _ _ _ _ H3 E3) as [H4 [H5 H6]].
+          assert (Hcy : cov (c_imp c0) y) by (rewrite Ei; apply Hx; left; reflexivity).
+          destruct (Hy _ _ _ _ _ Hcy Hc0 E2) as [H1 [H2 H3]].
+          destruct (IHt (fun x H => Hx x (or_intror H)) _ _ _ _ _ (eq_trans H1 Ei) H3 E3) as [H4 [H5 H6]].
           split; [congruence|split; [apply noinit_app; auto|exact H6]]. }
       destruct (d_kind d).
       + rewrite compile_stmts_eq. destruct (cstmts true true body c) as [c1 code1] eqn:E1.
-        intros E; injection E as <- <-. destruct (Hb _ _ _ _ _ Hc E1) as [H1 [H2 H3]].
+        intros E; injection E as <- <-. destruct (Hb _ _ _ _ _ eq_refl Hc E1) as [H1 [H2 H3]].
         split; [exact H1|split; [intros q []|]].
         intros n b. cbn [c_fns lookup]. destruct (N.eqb n (d_name d)); [intros E; injection E as <-; exact H2|apply H3].
       + intros E; injection E as <- <-. split; [reflexivity|split; [|exact Hc]].
@@ -533,28 +566,28 @@ Section CompileFacts.
       + cbn in H. discriminate.
     - cbn [compile_stmt]. intros E; injection E as <- <-. split; [reflexivity|split; [|exact Hc]].
       destruct hc; [apply noinit_single; intros q H; cbn in H; discriminate|intros q []].
-    - apply rnoimp_block in Hx. cbn [compile_stmt].
-      assert (Hb : forall hc' infn' c0 c1 code1, cfn_ok c0 -> cstmts hc' infn' body c0 = (c1, code1) ->
+    - unfold cov in Hx. rewrite nested_imports_block in Hx. apply cov_body in Hx. cbn [compile_stmt].
+      assert (Hb : forall hc' infn' c0 c1 code1, c_imp c0 = c_imp c -> cfn_ok c0 -> cstmts hc' infn' body c0 = (c1, code1) ->
                      c_imp c1 = c_imp c0 /\ noinit_l code1 /\ cfn_ok c1).
-      { clear - IH Hx Hext. induction IH as [|y t Hy _ IHt]; intros hc' infn' c0 c1 code1 Hc0; cbn [compile_stmts].
+      { clear - IH Hx Hext. induction IH as [|y t Hy _ IHt]; intros hc' infn' c0 c1 code1 Ei Hc0; cbn [compile_stmts].
         - intros E; injection E as <- <-. split; [reflexivity|split; [intros q []|exact Hc0]].
-        - cbn [rnoimp_l] in Hx. destruct Hx as [Hy0 Ht0].
-          destruct (cstmt hc' infn' y c0) as [c2 a2] eqn:E2.
+        - destruct (cstmt hc' infn' y c0) as [c2 a2] eqn:E2.
           destruct (cstmts hc' infn' t c2) as [c3 a3] eqn:E3. intros E; injection E as <- <-.
-          destruct (Hy Hy0 _ _ _ _ _ Hc0 E2) as [H1 [H2 H3]].
-          destruct (IHt Ht0 _ _ _ _ _ H3 E3) as [H4 [H5 H6]].
+          assert (Hcy : cov (c_imp c0) y) by (rewrite Ei; apply Hx; left; reflexivity).
+          destruct (Hy _ _ _ _ _ Hcy Hc0 E2) as [H1 [H2 H3]].
+          destruct (IHt (fun x H => Hx x (or_intror H)) _ _ _ _ _ (eq_trans H1 Ei) H3 E3) as [H4 [H5 H6]].
           split; [congruence|split; [apply noinit_app; auto|exact H6]]. }
       destruct hc.
       + rewrite compile_stmts_eq. destruct (cstmts true infn body c) as [c1 code1] eqn:E1.
-        intros E; injection E as <- <-. destruct (Hb _ _ _ _ _ Hc E1) as [H1 [H2 H3]].
+        intros E; injection E as <- <-. destruct (Hb _ _ _ _ _ eq_refl Hc E1) as [H1 [H2 H3]].
         split; [exact H1|split; [|exact H3]].
         apply noinit_single. intros q H. apply produces_block in H. exact (H2 q H).
       + intros E; injection E as <- <-. split; [reflexivity|split; [intros q []|exact Hc]].
   Qed.
 
-  (* the calls the top-level import statements emit, in order *)
+  (* the calls one top-level statement emits: those of all import statements in it, at its start *)
   Definition step_calls (imp : list path) (x : rstmt) : list path * list path :=
-    match x with RImport _ ms => emit_import G fuel imp ms | _ => (imp, []) end.
+    emit_import G fuel imp (concat (nested_imports x)).
   Fixpoint all_calls (rs : list rstmt) (imp : list path) : list path * list path :=
     match rs with
     | [] => (imp, [])
@@ -577,70 +610,101 @@ Section CompileFacts.
     rewrite (einits_none new); [apply app_nil_r|]. intros q H. exact (Hn q (Hnew _ H)).
   Qed.
 
-  (* a main module whose import statements are all top-level statements: the init events of the run are
-     exactly the emitted calls, in order *)
-  Lemma compile_top rs : rwf rs -> forall c c' code,
-    cfn_ok c -> cstmts true false rs c = (c', code) ->
+  Lemma cov_after_emit imp x : cov (fst (emit_import G fuel imp (concat (nested_imports x)))) x.
+  Proof.
+    intros ms m y Hms Hm Hy. unfold emit_import.
+    apply (proj2 (emit_import_contains G fuel (concat (nested_imports x)) (imp, [])) m y); [|exact Hy].
+    apply in_concat. exists ms. auto.
+  Qed.
+
+  Lemma hoist_main x c : (forall l ms, x <> RImport l ms) ->
+    hoist G fuel true x c =
+    (mkC (fst (emit_import G fuel (c_imp c) (concat (nested_imports x)))) (c_fns c),
+     map ICallInit (snd (emit_import G fuel (c_imp c) (concat (nested_imports x))))).
+  Proof.
+    intros H. unfold hoist. destruct x; try (exfalso; eapply H; reflexivity); rewrite hoist_eq; reflexivity.
+  Qed.
+
+  (* one top-level statement of the main module *)
+  Lemma top_step_main x c c0 h c' a :
+    cfn_ok c -> hoist G fuel true x c = (c0, h) -> cstmt true false x c0 = (c', a) ->
+    c_imp c' = fst (step_calls (c_imp c) x) /\ cfn_ok c' /\
+    forall st, einits (snd (run vars (h ++ a) st)) = einits (snd st) ++ snd (step_calls (c_imp c) x).
+  Proof.
+    intros Hc Hh Ea. unfold step_calls.
+    assert (Himp : (exists l ms, x = RImport l ms) \/ (forall l ms, x <> RImport l ms)).
+    { destruct x; try (right; intros; discriminate). left; eauto. }
+    destruct Himp as [[line [ms ->]]|Hni].
+    - cbn [hoist] in Hh. injection Hh as <- <-. cbn [compile_stmt nested_imports concat] in *. rewrite app_nil_r.
+      destruct (emit_import G fuel (c_imp c) ms) as [imp' cs]. injection Ea as <- <-. cbn [c_imp fst snd app].
+      split; [reflexivity|split; [exact Hc|]]. intros st. apply run_callinits.
+    - rewrite (hoist_main x c Hni) in Hh. injection Hh as <- <-.
+      pose proof (cov_after_emit (c_imp c) x) as Hcov.
+      destruct (emit_import G fuel (c_imp c) (concat (nested_imports x))) as [imp' cs] eqn:Ee. cbn [fst snd] in *.
+      destruct (compile_cov _ _ _ _ _ _ (Hcov : cov (c_imp (mkC imp' (c_fns c))) x) (Hc : cfn_ok (mkC imp' (c_fns c))) Ea) as [H1 [H2 H3]].
+      split; [exact H1|split; [exact H3|]]. intros st. rewrite run_app, (run_noinit _ H2). apply run_callinits.
+  Qed.
+
+  Lemma compile_top_main rs : forall c c' code,
+    cfn_ok c -> compile_top G fuel p true ext rs c = (c', code) ->
     c_imp c' = fst (all_calls rs (c_imp c)) /\ cfn_ok c' /\
     forall st, einits (snd (run vars code st)) = einits (snd st) ++ snd (all_calls rs (c_imp c)).
   Proof.
-    induction 1 as [|x t Hx _ IH]; intros c c' code Hc; cbn [compile_stmts all_calls].
+    induction rs as [|x t IH]; intros c c' code Hc; cbn [compile_top all_calls].
     - intros E; injection E as <- <-. split; [reflexivity|split; [exact Hc|]]. intros st. cbn. rewrite app_nil_r. reflexivity.
-    - destruct (cstmt true false x c) as [c1 a1] eqn:E1. destruct (cstmts true false t c1) as [c2 a2] eqn:E2.
+    - destruct (hoist G fuel true x c) as [c0 h] eqn:Eh.
+      destruct (cstmt true false x c0) as [c1 a1] eqn:E1.
+      destruct (compile_top G fuel p true ext t c1) as [c2 a2] eqn:E2.
       intros E; injection E as <- <-.
-      assert (Hstep : c_imp c1 = fst (step_calls (c_imp c) x) /\ cfn_ok c1 /\
-                      forall st, einits (snd (run vars a1 st)) = einits (snd st) ++ snd (step_calls (c_imp c) x)).
-      { destruct x as [line ms|line d body|line k e|tg|ct body];
-          try (destruct (compile_noimp _ Hx _ _ _ _ _ Hc E1) as [H1 [H2 H3]]; cbn [step_calls fst snd];
-               split; [exact H1|split; [exact H3|]]; intros st; rewrite app_nil_r; apply run_noinit; exact H2).
-        cbn [compile_stmt] in E1. cbn [step_calls]. destruct (emit_import G fuel (c_imp c) ms) as [imp' calls] eqn:Ee.
-        injection E1 as <- <-. cbn [c_imp fst snd]. split; [reflexivity|split; [exact Hc|]].
-        intros st. apply run_callinits. }
-      destruct Hstep as [Hi1 [Hc1 Hr1]].
+      destruct (top_step_main _ _ _ _ _ _ Hc Eh E1) as [Hi1 [Hc1 Hr1]].
       destruct (step_calls (c_imp c) x) as [imp1 cs1] eqn:Es. cbn [fst snd] in *.
       destruct (IH _ _ _ Hc1 E2) as [Hi2 [Hc2 Hr2]]. rewrite Hi1 in *.
       destruct (all_calls t imp1) as [imp2 cs2] eqn:Ea. cbn [fst snd] in *.
       split; [exact Hi2|split; [exact Hc2|]].
-      intros st. rewrite run_app, Hr2, Hr1, app_assoc. reflexivity.
+      intros st. rewrite app_assoc, run_app, Hr2, Hr1, app_assoc. reflexivity.
   Qed.
 
-  (* whatever the flags: the function table only ever holds init-free code when nothing nests an import *)
-  Lemma compile_cfn_ok rs : rwf rs -> forall hc c c' code,
-    cfn_ok c -> cstmts hc false rs c = (c', code) -> cfn_ok c'.
-  Proof.
-    induction 1 as [|x t Hx _ IH]; intros hc c c' code Hc; cbn [compile_stmts].
-    - intros E; injection E as <- <-. exact Hc.
-    - destruct (cstmt hc false x c) as [c1 a1] eqn:E1. destruct (cstmts hc false t c1) as [c2 a2] eqn:E2.
-      intros E; injection E as <- <-. eapply IH; [|exact E2].
-      destruct x as [line ms|line d body|line k e|tg|ct body];
-        try (destruct (compile_noimp _ Hx _ _ _ _ _ Hc E1) as [_ [_ H3]]; exact H3).
-      cbn [compile_stmt] in E1. destruct (emit_import G fuel (c_imp c) ms) as [imp' calls].
-      injection E1 as <- <-. exact Hc.
-  Qed.
+  Lemma hoist_nonmain_decl x c : (exists l d b, x = RDecl l d b) ->
+    hoist G fuel false x c = (mkC (fst (emit_import G fuel (c_imp c) (concat (nested_imports x)))) (c_fns c), []).
+  Proof. intros [l [d [b ->]]]. unfold hoist. rewrite hoist_eq. reflexivity. Qed.
 
-  (* imported modules: nothing but declarations is compiled — no top-level code at all *)
-  Lemma compile_nonmain_no_code rs : forall c, snd (cstmts false false rs c) = [].
+  (* imported modules: the function table only ever holds init-free code, and no top-level code is emitted at all *)
+  Lemma compile_top_nonmain rs : forall c c' code,
+    cfn_ok c -> compile_top G fuel p false ext rs c = (c', code) -> cfn_ok c' /\ code = [].
   Proof.
-    induction rs as [|x t IH]; intros c; cbn [compile_stmts]; [reflexivity|].
-    destruct (cstmt false false x c) as [c1 a1] eqn:E1. specialize (IH c1).
-    destruct (cstmts false false t c1) as [c2 a2]. cbn [snd] in *. subst a2. rewrite app_nil_r.
-    destruct x as [line ms|line d body|line k e|tg|ct body]; cbn [compile_stmt] in E1.
-    - destruct (emit_import G fuel (c_imp c) ms). injection E1 as _ <-. reflexivity.
-    - destruct (d_kind d).
-      + match type of E1 with context [let '(_, _) := ?e in _] => destruct e end. injection E1 as _ <-. reflexivity.
-      + injection E1 as _ <-. reflexivity.
-      + injection E1 as _ <-. reflexivity.
-      + injection E1 as _ <-. reflexivity.
-    - injection E1 as _ <-. reflexivity.
-    - injection E1 as _ <-. reflexivity.
-    - injection E1 as _ <-. reflexivity.
+    induction rs as [|x t IH]; intros c c' code Hc; cbn [compile_top].
+    - intros E; injection E as <- <-. auto.
+    - destruct (hoist G fuel false x c) as [c0 h] eqn:Eh.
+      destruct (cstmt false false x c0) as [c1 a1] eqn:E1.
+      destruct (compile_top G fuel p false ext t c1) as [c2 a2] eqn:E2.
+      intros E; injection E as <- <-.
+      assert (Hs : cfn_ok c1 /\ h = [] /\ a1 = []).
+      { assert (Hd : (exists l d b, x = RDecl l d b) \/ (forall l d b, x <> RDecl l d b)).
+        { destruct x; try (right; intros; discriminate). left; eauto. }
+        destruct Hd as [Hd|Hnd].
+        - rewrite (hoist_nonmain_decl x c Hd) in Eh. injection Eh as <- <-.
+          pose proof (cov_after_emit (c_imp c) x) as Hcov.
+          destruct (emit_import G fuel (c_imp c) (concat (nested_imports x))) as [imp' cs]. cbn [fst] in *.
+          destruct (compile_cov _ _ _ _ _ _ (Hcov : cov (c_imp (mkC imp' (c_fns c))) x) (Hc : cfn_ok (mkC imp' (c_fns c))) E1) as [_ [_ H3]].
+          split; [exact H3|split; [reflexivity|]].
+          destruct Hd as [l [d [b ->]]]. cbn [compile_stmt] in E1. destruct (d_kind d).
+          + match type of E1 with context [let '(_, _) := ?e in _] => destruct e end. injection E1 as _ <-. reflexivity.
+          + injection E1 as _ <-. reflexivity.
+          + injection E1 as _ <-. reflexivity.
+          + injection E1 as _ <-. reflexivity.
+        - destruct x as [line ms|line d body|line k e|tg|ct body]; [|exfalso; eapply Hnd; reflexivity| | |]; cbn [hoist] in Eh;
+            injection Eh as <- <-; cbn [compile_stmt] in E1.
+          + destruct (emit_import G fuel (c_imp c) ms). injection E1 as <- <-. auto.
+          + injection E1 as <- <-. auto.
+          + injection E1 as <- <-. auto.
+          + injection E1 as <- <-. auto. }
+      destruct Hs as [Hc1 [-> ->]]. destruct (IH _ _ _ Hc1 E2) as [Hc2 ->]. auto.
   Qed.
 End CompileFacts.
 
 (* ---------------------------------------------------------------------------------------------
    all calls of a main module *)
-Definition top_targets (rs : list rstmt) : list path :=
-  flat_map (fun x => match x with RImport _ ms => ms | _ => [] end) rs.
+Definition top_targets (rs : list rstmt) : list path := flat_map (fun x => concat (nested_imports x)) rs.
 
 Section AllCalls.
   Variable G : path -> list path.
@@ -648,28 +712,6 @@ Section AllCalls.
   Hypothesis Hrk : forall m n, In n (G m) -> rk n < rk m.
   Variable fuel : nat.
   Hypothesis Hfuel : forall m, rk m < fuel.
-
-  Lemma emit_one_shift imp c0 c x :
-    emit_one (imp, c0 ++ c) x = (fst (emit_one (imp, c) x), c0 ++ snd (emit_one (imp, c) x)).
-  Proof. unfold emit_one. destruct (memN x imp); cbn [fst snd]; [reflexivity|]. rewrite app_assoc. reflexivity. Qed.
-
-  Lemma fold_emit_one_shift po : forall imp c0 c,
-    fold_left emit_one po (imp, c0 ++ c) =
-    (fst (fold_left emit_one po (imp, c)), c0 ++ snd (fold_left emit_one po (imp, c))).
-  Proof.
-    induction po as [|x po IH]; intros imp c0 c; cbn [fold_left]; [reflexivity|].
-    rewrite emit_one_shift. destruct (emit_one (imp, c) x) as [i1 c1]. cbn [fst snd]. apply IH.
-  Qed.
-
-  Lemma emit_import_shift ms : forall imp c0 c,
-    fold_left (fun st m => fold_left emit_one (post_order G fuel m) st) ms (imp, c0 ++ c) =
-    (fst (fold_left (fun st m => fold_left emit_one (post_order G fuel m) st) ms (imp, c)),
-     c0 ++ snd (fold_left (fun st m => fold_left emit_one (post_order G fuel m) st) ms (imp, c))).
-  Proof.
-    induction ms as [|m ms IH]; intros imp c0 c; cbn [fold_left]; [reflexivity|].
-    rewrite fold_emit_one_shift.
-    destruct (fold_left emit_one (post_order G fuel m) (imp, c)) as [imp1 c1]. cbn [fst snd]. apply IH.
-  Qed.
 
   Lemma all_calls_spec rs : forall imp calls0,
     einv G (imp, calls0) ->
@@ -680,15 +722,13 @@ Section AllCalls.
   Proof.
     induction rs as [|s rs IH]; intros imp calls0 Hinv; cbn [all_calls top_targets flat_map].
     - cbn [fst snd]. rewrite app_nil_r. split; [exact Hinv|split; [auto|split; [intros m x []|intros x []]]].
-    - assert (Hstep : einv G (fst (step_calls G fuel imp s), calls0 ++ snd (step_calls G fuel imp s)) /\
+    - set (ms := concat (nested_imports s)).
+      assert (Hstep : einv G (fst (step_calls G fuel imp s), calls0 ++ snd (step_calls G fuel imp s)) /\
                       (forall x, In x imp -> In x (fst (step_calls G fuel imp s))) /\
-                      (forall m x, In m (match s with RImport _ ms => ms | _ => [] end) -> reach G m x -> In x (fst (step_calls G fuel imp s))) /\
-                      (forall x, In x (snd (step_calls G fuel imp s)) ->
-                                 exists m, In m (match s with RImport _ ms => ms | _ => [] end) /\ reach G m x)).
-      { destruct s as [line ms|line d body|line k e|tg|ct body]; cbn [step_calls fst snd];
-          try (rewrite app_nil_r; split; [exact Hinv|split; [auto|split; [intros m x []|intros x []]]]).
-        unfold emit_import.
-        pose proof (emit_import_shift ms imp calls0 []) as Hs. rewrite app_nil_r in Hs.
+                      (forall m x, In m ms -> reach G m x -> In x (fst (step_calls G fuel imp s))) /\
+                      (forall x, In x (snd (step_calls G fuel imp s)) -> exists m, In m ms /\ reach G m x)).
+      { unfold step_calls. fold ms. unfold emit_import.
+        pose proof (emit_import_shift G fuel ms imp calls0 []) as Hs. rewrite app_nil_r in Hs.
         destruct (emit_import_spec G rk Hrk fuel Hfuel ms imp calls0 Hinv) as [H1 [H2 [H3 [new [En Hn]]]]].
         rewrite Hs in H1, H2, H3, En. cbn [fst snd] in *.
         split; [exact H1|split; [exact H2|split; [exact H3|]]].
@@ -747,16 +787,18 @@ Proof.
   destruct (resolve_import fs inst p res ld i s) as [s1 r1]. cbn [snd] in *. rewrite H. reflexivity.
 Qed.
 
-Lemma compile_stmts_app G fuel p ext hc infn a : forall b c,
-  compile_stmts G fuel p ext hc infn (a ++ b) c =
-  let '(c1, x1) := compile_stmts G fuel p ext hc infn a c in
-  let '(c2, x2) := compile_stmts G fuel p ext hc infn b c1 in (c2, x1 ++ x2).
+
+Lemma compile_top_app G fuel p is_main ext a : forall b c,
+  compile_top G fuel p is_main ext (a ++ b) c =
+  let '(c1, x1) := compile_top G fuel p is_main ext a c in
+  let '(c2, x2) := compile_top G fuel p is_main ext b c1 in (c2, x1 ++ x2).
 Proof.
-  induction a as [|y t IH]; intros b c; cbn [app compile_stmts].
-  - destruct (compile_stmts G fuel p ext hc infn b c); reflexivity.
-  - destruct (compile_stmt G fuel p ext hc infn y c) as [c1 x1]. rewrite IH.
-    destruct (compile_stmts G fuel p ext hc infn t c1) as [c2 x2].
-    destruct (compile_stmts G fuel p ext hc infn b c2) as [c3 x3]. rewrite app_assoc. reflexivity.
+  induction a as [|y t IH]; intros b c; cbn [app compile_top].
+  - destruct (compile_top G fuel p is_main ext b c); reflexivity.
+  - destruct (hoist G fuel is_main y c) as [c0 h].
+    destruct (compile_stmt G fuel p ext is_main false y c0) as [c1 x1]. rewrite IH.
+    destruct (compile_top G fuel p is_main ext t c1) as [c2 x2].
+    destruct (compile_top G fuel p is_main ext b c2) as [c3 x3]. rewrite <- !app_assoc. reflexivity.
 Qed.
 
 Section ProgramFacts.
@@ -766,9 +808,6 @@ Section ProgramFacts.
   Notation Gr := (graph fs root).
   Notation fuel := (dfs_fuel fs root).
   Notation rk := (rank (l_map (L fs root))).
-
-  (* import statements are top-level statements in every module *)
-  Definition wf_fs : Prop := forall q, wf_src (src_of fs q).
 
   Lemma graph_rank m n : In n (Gr m) -> rk n < rk m.
   Proof.
@@ -782,107 +821,97 @@ Section ProgramFacts.
   Proof. unfold dfs_fuel. pose proof (rank_le (l_map (L fs root)) m). lia. Qed.
 
   Definition main_rs : list rstmt := snd (resolve_of fs root root).
+  (* the modules all import statements of the root (top-level or nested) resolved to *)
   Definition main_targets : list path := top_targets main_rs.
   Definition calls : list path := snd (all_calls Gr fuel main_rs []).
-
-  Lemma resolve_of_rwf q : wf_fs -> rwf (snd (resolve_of fs root q)).
-  Proof.
-    intros Hwf. unfold resolve_of, resolve_with, resolve_module.
-    destruct (N.eqb q root); apply resolve_rwf; apply Hwf.
-  Qed.
-
-  Lemma fn_code_noinit : wf_fs -> forall q n, noinit_l (fn_code fs root q n).
-  Proof.
-    intros Hwf q n. unfold fn_code, compile_module.
-    destruct (compile_stmts Gr fuel q (fun _ _ => []) false false (snd (resolve_of fs root q)) (mkC [] [])) as [c' code] eqn:E.
-    cbn [fst]. destruct (lookup n (c_fns c')) as [b|] eqn:El; [|intros x []].
-    refine (compile_cfn_ok Gr fuel q (fun _ _ => []) _ _ (resolve_of_rwf q Hwf) false _ _ _ _ E n b El).
-    - intros q0 n0 x [].
-    - intros n0 b0 H. discriminate.
-  Qed.
 
   Lemma cfn_ok_init : cfn_ok (mkC [] []).
   Proof. intros n b H. discriminate. Qed.
 
-  Lemma trace_einits : wf_fs -> einits (trace fs root) = calls.
+  Lemma fn_code_noinit : forall q n, noinit_l (fn_code fs root q n).
   Proof.
-    intros Hwf. unfold trace, main_code, compile_module, calls, main_rs.
-    destruct (compile_stmts Gr fuel root (fn_code fs root) true false (snd (resolve_of fs root root)) (mkC [] [])) as [c' code] eqn:E.
+    intros q n. unfold fn_code, compile_module.
+    destruct (compile_top Gr fuel q false (fun _ _ => []) (snd (resolve_of fs root q)) (mkC [] [])) as [c' code] eqn:E.
+    cbn [fst]. destruct (lookup n (c_fns c')) as [b|] eqn:El; [|intros x []].
+    refine (proj1 (compile_top_nonmain Gr fuel q (fun _ _ => []) _ _ _ _ _ cfn_ok_init E) n b El).
+    intros q0 n0 x [].
+  Qed.
+
+  Lemma trace_einits : einits (trace fs root) = calls.
+  Proof.
+    unfold trace, main_code, compile_module, calls, main_rs.
+    destruct (compile_top Gr fuel root true (fn_code fs root) (snd (resolve_of fs root root)) (mkC [] [])) as [c' code] eqn:E.
     cbn [snd].
-    destruct (compile_top Gr fuel root (fn_code fs root) (vars_of fs) (fn_code_noinit Hwf) _ (resolve_of_rwf root Hwf) _ _ _
-                cfn_ok_init E) as [_ [_ Hr]].
+    destruct (compile_top_main Gr fuel root (fn_code fs root) (vars_of fs) fn_code_noinit _ _ _ _ cfn_ok_init E) as [_ [_ Hr]].
     rewrite Hr. reflexivity.
   Qed.
 
   (* C10: each module's initialiser runs at most once *)
-  Theorem init_once : wf_fs -> NoDup (einits (trace fs root)).
-  Proof.
-    intros Hwf. rewrite (trace_einits Hwf).
-    exact (proj1 (all_calls_main Gr rk graph_rank fuel rank_fuel main_rs)).
-  Qed.
+  Theorem init_once : NoDup (einits (trace fs root)).
+  Proof. rewrite trace_einits. exact (proj1 (all_calls_main Gr rk graph_rank fuel rank_fuel main_rs)). Qed.
 
   (* C10: exactly the modules reachable from the root's import statements are initialised *)
-  Theorem init_covers : wf_fs -> forall q,
+  Theorem init_covers : forall q,
     In (EInit q) (trace fs root) <-> exists m, In m main_targets /\ reach Gr m q.
   Proof.
-    intros Hwf q. rewrite <- einits_In, (trace_einits Hwf).
+    intros q. rewrite <- einits_In, trace_einits.
     exact (proj2 (proj2 (all_calls_main Gr rk graph_rank fuel rank_fuel main_rs)) q).
   Qed.
 
   (* C10: a module is initialised after every module it imports *)
-  Theorem init_deps_first : wf_fs -> forall l1 q l2 q',
+  Theorem init_deps_first : forall l1 q l2 q',
     trace fs root = l1 ++ EInit q :: l2 -> In q' (Gr q) -> In (EInit q') l1.
   Proof.
-    intros Hwf l1 q l2 q' Htr Hq'.
+    intros l1 q l2 q' Htr Hq'.
     pose proof (proj1 (proj2 (all_calls_main Gr rk graph_rank fuel rank_fuel main_rs))) as Ho.
-    fold calls in Ho. rewrite <- (trace_einits Hwf), Htr, einits_app in Ho. cbn [einits] in Ho.
+    fold calls in Ho. rewrite <- trace_einits, Htr, einits_app in Ho. cbn [einits] in Ho.
     apply einits_In. eapply Ho; eauto.
   Qed.
 
-  (* C10: the init calls are emitted at the import statement: when the statement after it starts, every
-     module reachable through the import has been initialised *)
+  (* C10: when the statement after a top-level import starts, every module reachable through the import has been
+     initialised *)
   Definition prefix_trace (pre : list stmt) : list event :=
     let rs := snd (resolve_stmts fs 0 root (main_res fs root) (l_diags (L fs root)) pre (init_p)) in
-    snd (run (vars_of fs) (snd (compile_stmts Gr fuel root (fn_code fs root) true false rs (mkC [] []))) ([], [])).
+    snd (run (vars_of fs) (snd (compile_top Gr fuel root true (fn_code fs root) rs (mkC [] []))) ([], [])).
 
-  Theorem init_before_following_code : wf_fs -> forall s1 i s2,
+  Theorem init_before_following_code : forall s1 i s2,
     src_of fs root = s1 ++ SImport i :: s2 ->
     (exists tr2, trace fs root = prefix_trace (s1 ++ [SImport i]) ++ tr2) /\
     forall m x, In m (match lookup (i_line i) (main_res fs root) with Some ms => ms | None => [] end) ->
                 reach Gr m x -> In (EInit x) (prefix_trace (s1 ++ [SImport i])).
   Proof.
-    intros Hwf s1 i s2 Hsrc.
-    assert (Hpre : wf_src (s1 ++ [SImport i])).
-    { specialize (Hwf root). rewrite Hsrc in Hwf. unfold wf_src in *. rewrite Forall_app in *.
-      destruct Hwf as [H1 H2]. split; [exact H1|constructor; [exact I|constructor]]. }
+    intros s1 i s2 Hsrc.
     unfold trace, main_code, compile_module, prefix_trace.
     unfold resolve_of. rewrite N.eqb_refl. unfold resolve_with, resolve_module. rewrite Hsrc.
     replace (s1 ++ SImport i :: s2) with ((s1 ++ [SImport i]) ++ s2) by (rewrite <- app_assoc; reflexivity).
     rewrite resolve_stmts_app.
-    pose proof (resolve_rwf fs 0 root (main_res fs root) (l_diags (L fs root)) (s1 ++ [SImport i]) init_p Hpre) as Hrwf.
     destruct (resolve_stmts fs 0 root (main_res fs root) (l_diags (L fs root)) (s1 ++ [SImport i]) init_p) as [st1 r1] eqn:E1.
     destruct (resolve_stmts fs 0 root (main_res fs root) (l_diags (L fs root)) s2 st1) as [st2 r2] eqn:E2.
-    cbn [snd] in *. rewrite compile_stmts_app.
-    destruct (compile_stmts Gr fuel root (fn_code fs root) true false r1 (mkC [] [])) as [c1 x1] eqn:Ec1.
-    destruct (compile_stmts Gr fuel root (fn_code fs root) true false r2 c1) as [c2 x2] eqn:Ec2.
+    cbn [snd] in *. rewrite compile_top_app.
+    destruct (compile_top Gr fuel root true (fn_code fs root) r1 (mkC [] [])) as [c1 x1] eqn:Ec1.
+    destruct (compile_top Gr fuel root true (fn_code fs root) r2 c1) as [c2 x2] eqn:Ec2.
     cbn [snd]. rewrite run_app. split.
     - destruct (run_grows (vars_of fs) x2 (run (vars_of fs) x1 ([], []))) as [new [En _]]. eauto.
     - intros m x Hm Hx.
-      destruct (compile_top Gr fuel root (fn_code fs root) (vars_of fs) (fn_code_noinit Hwf) _ Hrwf _ _ _ cfn_ok_init Ec1) as [_ [_ Hr]].
+      destruct (compile_top_main Gr fuel root (fn_code fs root) (vars_of fs) fn_code_noinit _ _ _ _ cfn_ok_init Ec1) as [_ [_ Hr]].
       apply einits_In. rewrite Hr. cbn [snd einits app].
       apply (proj2 (proj2 (all_calls_main Gr rk graph_rank fuel rank_fuel r1))).
       exists m. split; [|exact Hx].
-      (* the last statement of the prefix is the import *)
       rewrite resolve_stmts_app in E1.
       destruct (resolve_stmts fs 0 root (main_res fs root) (l_diags (L fs root)) s1 init_p) as [sa ra].
       pose proof (resolve_single_import fs 0 root (main_res fs root) (l_diags (L fs root)) i sa) as Hsi.
       destruct (resolve_stmts fs 0 root (main_res fs root) (l_diags (L fs root)) [SImport i] sa) as [sb rb].
       cbn [snd] in Hsi. subst rb. injection E1 as _ <-. unfold top_targets. rewrite flat_map_app. apply in_or_app. right.
-      cbn [flat_map]. rewrite app_nil_r. exact Hm.
+      cbn [flat_map nested_imports concat]. rewrite !app_nil_r. exact Hm.
   Qed.
 
   (* C10: imported modules compile declarations only *)
-  Theorem no_toplevel_code_of_imports q ext rs c :
-    snd (compile_stmts Gr fuel q ext false false rs c) = [].
-  Proof. apply compile_nonmain_no_code. Qed.
+  Theorem no_toplevel_code_of_imports q rs :
+    snd (compile_module Gr fuel q false (fun _ _ => []) rs) = [].
+  Proof.
+    unfold compile_module.
+    destruct (compile_top Gr fuel q false (fun _ _ => []) rs (mkC [] [])) as [c' code] eqn:E. cbn [snd].
+    refine (proj2 (compile_top_nonmain Gr fuel q (fun _ _ => []) _ _ _ _ _ cfn_ok_init E)).
+    intros q0 n0 x [].
+  Qed.
 End ProgramFacts.
